@@ -321,6 +321,8 @@ def numpy_call(self, name, pos, kw):
             shp = pos[1] if sa is not None and sa.kind in ('tuple', 'list') else T.mk_tuple([pos[1]])
             sa = shp.single_atom()
             return T.mk_call('reshape', [pos[0], T.mk_tuple(sa.args)], kw)
+    if name == 'vectorize' and len(pos) == 1:
+        return pos[0]           # elementwise application of the same function
     sig = NPSIG.get(name)
     if sig is not None and len(pos) > 1:
         extra = pos[1:]
